@@ -174,6 +174,33 @@ def h_switches(ctx):
     ctx.require("nothing-else-changes", others_b == others_g, section=spelled, switch=body)
 
 
+_TWO_CONCATS = {".py": "def join_all(xs):\n    out = ''\n    for x in xs:\n        out += str(x)\n        out += ','\n    return out\n",
+                ".ts": "function joinAll(xs: string[]): string {\n  let out = '';\n  for (const x of xs) {\n    out += x;\n    out += ',';\n  }\n  return out;\n}\n"}
+
+
+def h_report_each_concat(ctx):
+    """performance.string-concat-loop.report_each_concat (documented, default false): one finding per loop variable when
+    off or absent, one per += when on; in both key spellings and both languages."""
+    from src.core.config_parser import _normalize_config_keys
+    from src.orchestrator.core import Orchestrator
+    import src.linter_config.ignore as ign
+    ext = ctx.pick("language", tuple(_TWO_CONCATS))
+    setting = ctx.pick("report_each_concat", ("absent", "false", "true"))
+    rule_key = ctx.pick("rule_key", ("string-concat-loop", "string_concat_loop"))
+    d = _proj()
+    f = d / "src" / ("two_concats" + ext)
+    f.write_text(_TWO_CONCATS[ext])
+    try:
+        cfg = {} if setting == "absent" else {"performance": {rule_key: {"report_each_concat": setting == "true"}}}
+        ign.clear_ignore_parser_cache()
+        vs = [v for v in Orchestrator(project_root=d, config=_normalize_config_keys(cfg)).lint_files([f]) if v.rule_id == "performance.string-concat-loop"]
+    finally:
+        f.unlink()
+    ctx.cover("each" if setting == "true" else "one")
+    want = [4, 5] if setting == "true" else [4]
+    ctx.require("documented-report_each_concat-switch-takes-effect", sorted(v.line for v in vs) == want, setting=setting, got=sorted(v.line for v in vs), want=want)
+
+
 # a threshold option on the command line replaces that threshold only: the rest of the linter's section stays in effect
 OPTION_SECTIONS = (
     ("nesting", ("--max-depth", "1"), ("nesting",), "nest.py"),
@@ -621,6 +648,10 @@ def obligations(tier):
            functions=["LazyIgnoresRule.check/_load_config/check_content", "PerformanceConfig.from_dict/for_rule", "StringConcatLoopRule/RegexInLoopRule._load_config"],
            bounds="forked: %d documented switches (lazy-ignores check_*, performance per-rule enabled) x {hyphen, underscore} section spelling" % len(SWITCHES),
            timeout=300, workers=8, must_cover=("silenced",)),
+        Ob(name="K1r-report-each-concat-switch", engine="pathex", harness=h_report_each_concat,
+           functions=["PerformanceConfig.from_dict/for_rule", "StringConcatLoopRule._check_python/_check_typescript", "deduplicate_violations"],
+           bounds="forked: 2 languages x switch absent / false / true x 2 spellings of the rule key; a loop with two += on one variable",
+           timeout=120, workers=6, must_cover=("each", "one")),
         Ob(name="K2d-threshold-option-keeps-the-section", engine="pathex", harness=h_option_keeps_section,
            functions=["_apply_*_config_override / ensure_config_section / set_config_value", "each linter's section lookup", "Orchestrator._linter_ignores_file"],
            bounds="forked: 4 commands with a threshold option x every accepted spelling of their section x {enabled: false, ignore list} x option given or not",
